@@ -64,6 +64,16 @@ func urlOracle(c *kit.Case) error {
 	cfg.Unsafe = false
 	src := c.Bytes["src"]
 	var buf bytes.Buffer
+	if prev, ok := c.Bytes["prev"]; ok {
+		// the caller recycles one source buffer (bytes.Buffer.Reset, a pool): an earlier document was converted
+		// from the same backing array by the same instance, then the array was overwritten with this document
+		shared := make([]byte, len(prev)+len(src))
+		copy(shared, prev)
+		var sink bytes.Buffer
+		_ = cfg.MD().Convert(shared[:len(prev)], &sink)
+		copy(shared, src)
+		src = shared[:len(src)]
+	}
 	if err := cfg.MD().Convert(src, &buf); err != nil {
 		return kit.Violf("convert-error", "%v", err)
 	}
@@ -127,9 +137,6 @@ func astURLOracle(c *kit.Case) error {
 		return kit.Violf("render-error", "%v", err)
 	}
 	if v, bad := dangerousIn(buf.Bytes()); bad {
-		if c.Strs["kind"] == "autolink-email" {
-			return nil // an e-mail autolink always gets the mailto: scheme in front; what follows is not a scheme
-		}
 		return kit.Violf("dangerous-url", "programmatic %s node: href/src %q (normalised %q) in safe-mode output %q", c.Strs["kind"], v, oracle.NormalizeURL(v), buf.Bytes())
 	}
 	return nil
@@ -307,6 +314,44 @@ func TestURLAttack(t *testing.T) {
 	kit.Rapid(t, "attack", 250000, 12000000, func(t *rapid.T) {
 		cfg := gen.DrawConfig(t, gen.ConfigOpts{SafeOnly: true})
 		run(t, cfg, document(t), "attack")
+	})
+}
+
+// TestRecycledBuffer: two documents of the same shape converted one after the other from one backing array; the
+// first carries harmless URLs of exactly the lengths of the dangerous ones in the second, so that anything the
+// instance remembers by position, length or slice identity is stale in the most misleading way.
+func TestRecycledBuffer(t *testing.T) {
+	kit.Rapid(t, "recycle", 60000, 3000000, func(t *rapid.T) {
+		cfg := gen.DrawConfig(t, gen.ConfigOpts{SafeOnly: true})
+		c := rapid.SampledFrom(constructs).Draw(t, "construct")
+		var d1, d2 strings.Builder
+		for i := 0; i < len(c.tpl); i++ {
+			if c.tpl[i] != '@' {
+				d1.WriteByte(c.tpl[i])
+				d2.WriteByte(c.tpl[i])
+				continue
+			}
+			u, _ := buildURL(t, c.angle)
+			d2.WriteString(u)
+			harmless := "https://ok.example/" + strings.Repeat("p", len(u))
+			if len(u) < 8 {
+				harmless = "/" + strings.Repeat("q", len(u))
+			}
+			d1.WriteString(harmless[:len(u)])
+		}
+		w := rapid.SampledFrom(wrappers).Draw(t, "wrapper")
+		doc1, doc2 := strings.Replace(w, "@", d1.String(), 1), strings.Replace(w, "@", d2.String(), 1)
+		if rapid.Bool().Draw(t, "swap") { // the dangerous document first: a remembered verdict must not blank the harmless one either (C10's business), and must not survive
+			doc1, doc2 = doc2, doc1
+		}
+		cs := kit.NewCase("url", cfg.String()).B("src", []byte(doc2)).B("prev", []byte(doc1))
+		lastUnsafeDangerous = false
+		if kit.Check(t, cs) {
+			kit.R.Class("gen:recycled-buffer")
+			if lastUnsafeDangerous {
+				kit.R.NonTrivial(cs)
+			}
+		}
 	})
 }
 
